@@ -80,6 +80,14 @@ def main():
         ctx.notes["make_s"] = round(dt, 1)
         if not ok:
             ctx.broken("proof-build", log[-4000:])
+            # the obligations are still the theorems stated in the property file; none of them is discharged
+            try:
+                import re as _re2
+                src = open(os.path.join(VERIF, "coq", "Props", "%s.v" % prop)).read()
+                names = _re2.findall(r"^Theorem (\w+)", src, flags=_re2.M)
+                proof.update(obligations=len(names), discharged=0, theorems=names)
+            except OSError:
+                pass
         else:
             okp, theorems, discharged, axioms, per, plog = vlib.coq_prop_file(prop)
             proof.update(obligations=len(theorems), discharged=discharged, axioms=axioms,
